@@ -45,7 +45,16 @@ static std::string handle(const Case& c) {
     if (op == "bshape")      { auto r = ix::broadcast_shape(uv(c.args[0]), uv(c.args[1])); return nm::has_value(r) ? "ok" : "nothing"; }
     if (op == "norm_axis")   { auto r = ix::normalize_axis((int)c.args[0].val, (int)c.args[1].val); return nm::has_value(r) ? "ok" : "nothing"; }
     if (op == "norm_axes")   { auto r = ix::normalize_axis(iv(c.args[0]), (int)c.args[1].val); return nm::has_value(r) ? "ok" : "nothing"; }
+    // axes of UNSIGNED element types (size_t / unsigned / uint8_t containers and scalars): the range test has its own arm
+    if (op == "norm_axis_u")  { auto r = ix::normalize_axis((size_t)c.args[0].val, (int)c.args[1].val); return nm::has_value(r) ? "ok" : "nothing"; }
+    if (op == "norm_axes_u")  { auto r = ix::normalize_axis(uv(c.args[0]), (int)c.args[1].val); return nm::has_value(r) ? "ok" : "nothing"; }
+    if (op == "norm_axes_u8") { std::vector<unsigned char> v(c.args[0].list.begin(), c.args[0].list.end()); auto r = ix::normalize_axis(v, (size_t)c.args[1].val); return nm::has_value(r) ? "ok" : "nothing"; }
+    if (op == "norm_axes_ua") { if (c.args[0].list.size() != 2) return "unsupported"; std::array<unsigned,2> v{(unsigned)c.args[0].list[0], (unsigned)c.args[0].list[1]};
+                                auto r = ix::normalize_axis(v, (int)c.args[1].val); return nm::has_value(r) ? "ok" : "nothing"; }
     auto a = make_array(c.args[0]);
+    if (op == "moveaxis_u")  return status(view::moveaxis(a, (size_t)c.args[1].val, (size_t)c.args[2].val));
+    if (op == "sums_u")      return status(view::sum(a, uv(c.args[1])));
+    if (op == "transpose_u") return status(view::transpose(a, uv(c.args[1])));
     if (op == "reshape")     return status(view::reshape(a, iv(c.args[1])));
     if (op == "transpose")   return status(view::transpose(a, iv(c.args[1])));
     if (op == "moveaxis")    return status(view::moveaxis(a, (int)c.args[1].val, (int)c.args[2].val));
